@@ -152,6 +152,10 @@ LEAVES: dict[str, tuple] = {
     "GInt": (GI[int], [_GI1], False),
 }
 LEAF_NAMES = list(LEAVES)
+# leaves used by special families only (not part of the depth-bounded term enumeration)
+LEAVES["Literal2"] = (typing.Literal["beta", 7], ["".join(["be", "ta"]), int("7")], True)
+LEAVES["LiteralA"] = (typing.Literal["alpha"], ["".join(["al", "pha"])], True)
+LEAVES["LiteralB"] = (typing.Literal["beta"], ["".join(["be", "ta"])], True)
 SMALL_LEAVES = ["int", "str", "None"]
 MID_LEAVES = ["int", "str", "None", "State"]
 
@@ -360,12 +364,13 @@ def conforms(v, t) -> str:  # noqa: C901, PLR0911, PLR0912, PLR0915
         return Y if isinstance(v, pathlib.Path) else (U if isinstance(v, pathlib.PurePath) else N)
     if k == "Enum":
         return Y if isinstance(v, Color) else N
-    if k == "Literal":
-        for lit in ("alpha", 3000):
+    if k in ("Literal", "Literal2", "LiteralA", "LiteralB"):
+        lits = {"Literal": ("alpha", 3000), "Literal2": ("beta", 7), "LiteralA": ("alpha",), "LiteralB": ("beta",)}[k]
+        for lit in lits:
             if type(v) is type(lit) and v == lit:
                 return Y
         try:
-            if v in ("alpha", 3000):
+            if v in lits:
                 return U  # equal but differently typed (3000.0 ...)
         except Exception:
             pass
